@@ -4,6 +4,7 @@ import (
 	"fmt"
 	"go/token"
 	"go/types"
+	"regexp"
 	"sort"
 	"strings"
 
@@ -203,6 +204,8 @@ func (c *FnCtx) fieldFuncCall(call *ssa.CallCommon) (string, sv, bool) {
 	}
 	return "field." + named.Obj().Name() + "." + st.Field(fa.Field).Name(), sv{c.vals[fa.X], fa.X.Type()}, true
 }
+
+var nativeName = regexp.MustCompile(`^func[A-Z][A-Za-z0-9]*$`)
 
 // capturedWritten: names of free variables a closure contract declares it writes (cell(name)).
 func capturedWritten(con *Contract) map[string]bool {
@@ -920,7 +923,10 @@ func (c *FnCtx) assumeRequires() {
 		// a function swept without annotations: its interface-typed parameters range over the input
 		// domain of C08, values built from the nine JSON representation types all the way down
 		// (djson, when the contracts define it)
-		if sf := c.eng.specs.Funcs["djson"]; sf != nil && len(sf.Params) == 1 {
+		// (only the native builtins funcXxx, which the interpreter calls with values from its stack; helpers
+		// such as deleteEmpty also receive internal markers like struct{}{}, and assuming JSON there
+		// would make those paths unreachable - the cover queries reject that)
+		if sf := c.eng.specs.Funcs["djson"]; sf != nil && len(sf.Params) == 1 && nativeName.MatchString(c.fn.Name()) {
 			env := c.conEnv()
 			env.pkg = c.pkgTypes()
 			env.heap = c.entry
